@@ -1,5 +1,201 @@
-(* Properties_C01.v — placeholder until the refinement theorem lands: non-vacuity of the reference meaning. *)
-From Coq Require Import List NArith ZArith String.
-From LC Require Import Bytes Consts Conv Lexer Files Store Parser Grammar.
+(* Properties_C01.v — C01: the parser accepts exactly the texts the reference meaning defines, and then the
+   resulting tree observes as the meaning says.  Only statements here; proofs are in ParserProofs.v (and PP_*.v).
+
+   MODEL  Parser.parse_internal / setopt / init_defaults (cfg_parse_internal, cfg_setopt, cfg_init_defaults),
+          Parser.parse_buf; tokens come from the scanner model Lexer.yylex through Parser.next_token, default texts
+          of list options are scanned in a pushed buffer.
+   SPEC   Grammar.meaning / text_meaning (schema-directed recursive descent with whole-value operations),
+          Grammar.instance (fresh section instance with declared defaults), Grammar.obs_c (forgets RESET / MODIFIED /
+          DEFINIT / COMMENTS bits, annotations, positions).
+
+   Vocabulary (PP_Tok.v / PP_Inv.v / PP_SpecLemmas.v / ParserProofs.v):
+     yields env s ts the scanner in state s (environment env, no include frame) delivers the tokens ts, then EOF,
+                     whatever position is passed in and for any fuel above LexAll.measure s;
+                     yieldsc e s ts = yields (fst e) s ts.  Statements 5 and 6: the token list Lexer.lex_all computes
+                     for a text (ending in TEof = no lexical error) is one, and it is the same on top of any scanner.
+     wst w e s       world w has environment fst e, scanner state s at a token boundary (start condition INITIAL,
+                     no read error pending, no include frame, consistent scratch buffer), buffers below the current
+                     one = snd e, and w_oof = false.
+     Inv env DC k c  = PP_Inv.invC (dtext_okb env DC) k c = true, a decidable tree invariant to depth k:
+                     every option, live or template, recursively: kind int/float/bool/string/section, no parse /
+                     validate callback; a section option has neither CFGF_LIST nor the internal RESET bit; section
+                     options hold sections only (titled when MULTI|TITLE), scalar options hold no section values;
+                     templates hold no values; non-list options have no default text; the default text of a list option
+                     is absent, empty, or passes dtext_okb env DC: it scans without error, gives the same tokens
+                     under env as under the empty environment (which the SPEC uses), is exactly  v  or  { v, ... }
+                     with convertible values, and its length + token count + 4 is at most DC.
+     enough DC k s ts fuel   measure s + |ts| + 2k + 3 + DC < fuel.
+     wready w        between parses: w_oof = false, no include frame, consistent scratch buffer.
+
+   Schemas outside Inv on which MODEL and SPEC differ (found while proving, checked by vm_compute):
+     a section option declared with CFGF_LIST (every `s { }` appends an instance instead of merging into the first);
+     an option of kind CFGT_NONE with CFGF_LIST (`n = {}` is accepted);
+     a list default text that is not exactly a value or a braced list (the model aborts cfg_init_defaults or goes on
+     parsing items from the default text; the SPEC takes what it can read).
+   HISTORY  An earlier model (and the C it transcribed) accepted an empty key in a CFGF_KEYSTRVAL section
+     (`kv { "" = x }`: cfg_addopt created an option named "") while the SPEC rejects it; the statements then carried a
+     side condition on the token list.  The C code and Parser.v now reject the empty key, the side condition is gone,
+     and the former counterexample is an Example below (both sides reject). *)
+From Coq Require String.
+From Coq Require Import List Arith NArith ZArith Bool.
+From Coq.Strings Require Import Byte.
+From LC Require Import Bytes Consts Conv Lexer LexLemmas LexAll Files Store Parser Grammar
+  PP_Tok PP_Inv PP_SpecLemmas PP_LexYields PP_LexFrame ParserProofs.
 Import ListNotations.
-Example C01_spec_example : True. Proof. exact I. Qed.
+
+(* 1. acceptance: with enough fuel the model never runs out of it, and it accepts iff the meaning is defined *)
+Theorem C01_accept_iff :
+  forall (strtod_o : str -> strtod_res) (e : ctx) (DC k : nat) (ts : list ltok) (L : lexst) (w : pw) (c : cfg) (fuel F : nat),
+  wst w e L -> yieldsc e L ts -> Inv strtod_o (fst e) DC k c -> enough DC k L ts fuel ->
+  length (gtoks ts) < F ->
+  let '(w', c', rc) := parse_internal strtod_o fuel w c 0 (pst0 0 None) in
+  w_oof w' = false /\ (rc = PEOF <-> meaning strtod_o F c true (gtoks ts) <> None) /\ (rc = PEOF \/ rc = PERR).
+Proof. exact c01_accept_iff. Qed.
+Print Assumptions C01_accept_iff.
+
+(* 2. values: an accepted text leaves the tree the meaning denotes, up to obs_c; the invariant is kept *)
+Theorem C01_values :
+  forall (strtod_o : str -> strtod_res) (e : ctx) (DC k : nat) (ts : list ltok) (L : lexst) (w : pw) (c : cfg) (fuel F : nat),
+  wst w e L -> yieldsc e L ts -> Inv strtod_o (fst e) DC k c -> enough DC k L ts fuel ->
+  length (gtoks ts) < F ->
+  let '(w', c', rc) := parse_internal strtod_o fuel w c 0 (pst0 0 None) in
+  rc = PEOF -> exists c'' rest, meaning strtod_o F c true (gtoks ts) = Some (c'', rest) /\ obs_c c' = obs_c c'' /\
+                                Inv strtod_o (fst e) DC k c'.
+Proof. exact c01_values. Qed.
+Print Assumptions C01_values.
+
+(* 3. both at once, the machine on a tree cm and the SPEC on any tree cs with the same observation *)
+Theorem C01_machine :
+  forall (strtod_o : str -> strtod_res) (e : ctx) (DC k : nat) (ts : list ltok) (L : lexst) (w : pw) (cm cs : cfg) (fuel F : nat),
+  wst w e L -> yieldsc e L ts -> Inv strtod_o (fst e) DC k cm -> obs_c cm = obs_c cs ->
+  enough DC k L ts fuel -> length (gtoks ts) < F ->
+  exists w' c' rc, parse_internal strtod_o fuel w cm 0 (pst0 0 None) = (w', c', rc) /\ w_oof w' = false /\
+    match meaning strtod_o F cs true (gtoks ts) with
+    | Some (c'', _) => rc = PEOF /\ obs_c c' = obs_c c'' /\ Inv strtod_o (fst e) DC k c' /\ exists L', wst w' e L'
+    | None => rc = PERR
+    end.
+Proof. exact c01_machine2. Qed.
+Print Assumptions C01_machine.
+
+(* 4. byte level: cfg_parse_buf on a text whose tokens (Lexer.lex_all on a scanner that reads just this text) end with
+      TEof, i.e. a text without lexical error *)
+Theorem C01_parse_buf :
+  forall (strtod_o : str -> strtod_res) (DC k : nat) (w : pw) (c : cfg) (b : str) (ts : list ltok) (lf : nat) (p0 : pos)
+         (s' : lexst) (p' : pos) (d : list diag) (fuel : nat),
+  wready w -> Inv strtod_o (w_env w) DC k c ->
+  lex_all (w_env w) lf (scan_begin lex_init (cstr b)) p0 [] [] = (ts, TEof, s', p', d) ->
+  length (cstr b) + measure (w_lex w) + length ts + 2 * k + 4 + DC < fuel ->
+  let '(w', c', rc) := parse_buf strtod_o fuel w c (Some b) in
+  w_oof w' = false /\
+  match text_meaning strtod_o c ts with
+  | Some oc => rc = CFG_SUCCESS /\ obs_c c' = oc /\ Inv strtod_o (w_env w) DC k c' /\ wready w' /\ w_env w' = w_env w /\
+               l_bufs (w_lex w') = l_bufs (w_lex w)
+  | None => rc = CFG_PARSE_ERROR
+  end.
+Proof. exact c01_parse_buf. Qed.
+Print Assumptions C01_parse_buf.
+
+(* 5. a sequence of texts parsed into one context, stopping at the first rejected one (parse_all / meaning_all are
+      the evident folds, defined in ParserProofs.v) *)
+Theorem C01_parse_all :
+  forall (strtod_o : str -> strtod_res) (DC k fuel : nat) (bs : list str) (tss : list (list ltok)) (w : pw) (cm cs : cfg),
+  wready w -> Inv strtod_o (w_env w) DC k cm -> obs_c cm = obs_c cs ->
+  Forall2 (text_ok (w_env w) DC k (measure (w_lex w)) fuel) bs tss ->
+  let '(w', c', ok) := parse_all strtod_o fuel w cm bs in
+  w_oof w' = false /\
+  match meaning_all strtod_o cs tss with
+  | Some oc => ok = true /\ obs_c c' = obs_c oc /\ Inv strtod_o (w_env w) DC k c' /\ wready w'
+  | None => ok = false
+  end.
+Proof. exact c01_parse_all. Qed.
+Print Assumptions C01_parse_all.
+
+(* 6. the token source assumption is what the scanner model computes, on top of any scanner state between tokens *)
+Theorem C01_tokens_from_scanner :
+  forall (e : envt) (fuel : nat) (s : lexst) (p : pos) (ts : list ltok) (s' : lexst) (p' : pos) (d : list diag),
+  l_inc s = [] -> lex_all e fuel s p [] [] = (ts, TEof, s', p', d) -> yields e s ts.
+Proof. exact lex_all_yields. Qed.
+Print Assumptions C01_tokens_from_scanner.
+
+Theorem C01_tokens_frame :
+  forall (e : envt) (s : lexst) (inp : str) (fuel : nat) (p : pos) (ts : list ltok) (s' : lexst) (p' : pos) (d : list diag),
+  l_inc s = [] -> q_inv (l_q s) ->
+  lex_all e fuel (scan_begin lex_init inp) p [] [] = (ts, TEof, s', p', d) -> yields e (scan_begin s inp) ts.
+Proof. exact yields_of_fresh. Qed.
+Print Assumptions C01_tokens_frame.
+
+(* ---------------------------------------------------------------------------------------------
+   Example: the hypotheses hold on a concrete schema and texts, and both sides compute to the same tree *)
+Module Ex.
+Import String.StringSyntax.
+Local Open Scope string_scope.
+Local Open Scope list_scope.
+Definition B := bs_of_string.
+Definition mk n k fl sub := Opt (B n) k fl [] sub defv0 None cbset0.
+Definition mkd n k fl (num : Z) := Opt (B n) k fl [] [] {| d_num := num; d_fp := 0; d_bool := true; d_str := Some (B "dflt"); d_parsed := None |} None cbset0.
+Definition mkl n k fl (txt : String.string) := Opt (B n) k fl [] [] {| d_num := 0; d_fp := 0; d_bool := false; d_str := None; d_parsed := Some (B txt) |} None cbset0.
+(* flags: 1 MULTI, 2 LIST, 8 TITLE, 32 NO_TITLE_DUPES, 256 IGNORE_UNKNOWN (context), 512 DEPRECATED, 1024 DROP, 8192 KEYSTRVAL *)
+Definition decls : list opt :=
+  [ mkd "x" KInt 0%N 7; mkd "b" KBool 0%N 0; mkd "name" KStr 0%N 0; mkl "l" KInt 2%N "{1, 2 , 3}"; mk "e" KStr 2%N [];
+    mk "old" KStr 1536%N [];
+    mk "s" KSec 0%N [mkd "a" KInt 0%N 1; mk "in" KSec 0%N [mkd "z" KInt 0%N 2; mkl "w" KStr 2%N "{u, ""v w""} # two"]];
+    mk "m" KSec 1%N [mkd "a" KInt 0%N 1; mkl "one" KBool 2%N "yes"];
+    mk "t" KSec 9%N [mkd "a" KInt 0%N 1; mk "ll" KStr 2%N []];
+    mk "kv" KSec 8192%N [] ].
+Definition sd (s : str) : strtod_res := {| sd_bits := 0; sd_consumed := 0; sd_erange := false |}.
+Definition w0 : pw := {| w_lex := lex_init; w_env := []; w_fs := {| fs_root := B "/R"; fs_ents := [] |};
+  w_pw := {| pw_tab := []; pw_self := None |}; w_path := []; w_cbs := []; w_cnt := 0; w_failat := 0; w_nextptr := 1;
+  w_diags := []; w_open := 0; w_crash := None; w_oof := false |}.
+Definition c0 := snd (cfg_init sd 1000 w0 decls 0).
+Definition toks_of (t : str) := let '(ts, _, _, _, _) := lex_all [] (S (length t)) (scan_begin lex_init (cstr t)) {| p_file := None; p_line := 1 |} [] [] in ts.
+Definition txt := B "x = 5  l += 4  e = {a, b,}  e += c # note
+  s { a = 10 in { z = 3 w += x } }  m { a = 2 } m { one = {no} } t one { a = 4 ll = {p, q} } t 'two' { } t one { ll += r }
+  old = gone  kv { colour = red  size = ""9"" }  name = ""hello world""  b = off  s|a = 11".
+Definition txt2 := B "l = {} m { } s { in { w = last } } t 'two' { a = 1 }".
+Definition toks := toks_of txt.
+Definition toks2 := toks_of txt2.
+
+(* the hypotheses of C01_parse_buf: the tree cfg_init builds (with scanned list defaults) meets the invariant *)
+Example C01_hypotheses_hold :
+  wready w0 /\ Inv sd (w_env w0) 30 3 c0 /\
+  (exists s' p' d, lex_all (w_env w0) (S (length txt)) (scan_begin lex_init (cstr txt)) {| p_file := None; p_line := 1 |} [] [] = (toks, TEof, s', p', d)) /\
+  (length (cstr txt) + measure (w_lex w0) + length toks + 2 * 3 + 4 + 30 <? 1000) = true.
+Proof.
+  split; [split; [reflexivity|split; [reflexivity|apply q_inv_empty]]|]. split; [vm_compute; reflexivity|].
+  split; [vm_compute; do 3 eexists; reflexivity|]. vm_compute; reflexivity.
+Qed.
+
+(* the defaults cfg_init scanned are the ones the SPEC's instance declares *)
+Example C01_scanned_defaults :
+  map (fun o => (o_name o, o_vals o)) (firstn 5 (c_opts c0)) =
+  [(B "x", [VInt 7]); (B "b", [VBool true]); (B "name", [VStr (Some (B "dflt"))]); (B "l", [VInt 1; VInt 2; VInt 3]); (B "e", [])].
+Proof. vm_compute. reflexivity. Qed.
+
+(* what the theorem then says, checked by computation on both sides *)
+Example C01_both_sides :
+  let '(w', c', rc) := parse_buf sd 1000 w0 c0 (Some txt) in
+  rc = CFG_SUCCESS /\ w_oof w' = false /\ Some (obs_c c') = text_meaning sd c0 toks /\ length toks = 93.
+Proof. vm_compute. repeat split; reflexivity. Qed.
+
+(* two texts into one context *)
+Example C01_two_texts :
+  let '(w', c', ok) := parse_all sd 1000 w0 c0 [txt; txt2] in
+  ok = true /\ w_oof w' = false /\ option_map obs_c (meaning_all sd c0 [toks; toks2]) = Some (obs_c c').
+Proof. vm_compute. repeat split; reflexivity. Qed.
+
+(* a rejected text: both sides reject *)
+Definition bad := B "x = 5 m { a = } ".
+Example C01_both_reject :
+  snd (parse_buf sd 1000 w0 c0 (Some bad)) = CFG_PARSE_ERROR /\ text_meaning sd c0 (toks_of bad) = None.
+Proof. vm_compute. split; reflexivity. Qed.
+
+(* FORMER COUNTEREXAMPLE: an empty key in a CFGF_KEYSTRVAL section used to be accepted by the model; now both reject,
+   while an ordinary free-form key next to it is still accepted on both sides *)
+Definition ek := B "kv { """" = x }".
+Definition ek2 := B "kv { y = x }".
+Example C01_empty_key_rejected :
+  snd (parse_buf sd 1000 w0 c0 (Some ek)) = CFG_PARSE_ERROR /\ text_meaning sd c0 (toks_of ek) = None /\
+  snd (parse_buf sd 1000 w0 c0 (Some ek2)) = CFG_SUCCESS /\
+  Some (obs_c (snd (fst (parse_buf sd 1000 w0 c0 (Some ek2))))) = text_meaning sd c0 (toks_of ek2).
+Proof. vm_compute. repeat split; reflexivity. Qed.
+End Ex.
